@@ -389,3 +389,174 @@ void genC12(uint64_t seed, int tier, Scenario& sc) {
 vf::ClassRegistrar regC12({"C12", "C12", "unit", genC12, runC12});
 
 } // namespace
+
+// ==========================================================================================
+// C13: with tablebase knowledge the engine reports exact results and keeps them (session runs).
+#include "uci_oracle.hpp"
+#include "posgen.hpp"
+#include "gen_util.hpp"
+#include "moveGen.hpp"
+
+namespace sess { bool ttIndexViolation(std::string& detail); }
+
+namespace {
+
+bool parseScore(const std::string& line, int& depth, bool& mate, long long& score, bool& bound) {
+    std::vector<std::string> t = vf::splitWs(line);
+    if (t.size() < 6 || t[0] != "info" || t[1] != "depth" || t[3] != "score") return false;
+    depth = atoi(t[2].c_str());
+    mate = t[4] == "mate";
+    score = atoll(t[5].c_str());
+    bound = t.size() > 6 && (t[6] == "upperbound" || t[6] == "lowerbound");
+    return true;
+}
+
+void checkTB(const sess::History& h, const uci::Model& m, vf::Result& res) {
+    for (size_t k = 0; k < m.gos.size(); k++) {
+        const uci::GoRec& g = m.gos[k];
+        if (g.bestmoveLine < 0 || !g.posKnown) continue;
+        dtm::Value rv = tba::probe(g.root);
+        if (rv.kind == dtm::Value::NOT_COVERED || rv.kind == dtm::Value::ILLEGAL_POS) continue;
+        const int hmc = g.root.getHalfMoveClock();
+        const int men = BitBoard::bitCount(g.root.occupiedBB());
+        std::string ctx = " [go #" + std::to_string(k) + " root " + TextIO::toFEN(g.root) + " oracle=" +
+                          (rv.kind == dtm::Value::WIN ? "win in " + std::to_string(rv.moves()) : rv.kind == dtm::Value::LOSS ? "loss in " + std::to_string(rv.moves()) : "draw") + "]";
+        // last exact score line of this search
+        int lastDepth = -1;
+        bool lastMate = false;
+        long long lastScore = 0;
+        std::string lastLine;
+        bool tbHitsSeen = false;
+        for (int i = g.firstOut; i < g.lastOut; i++) {
+            if (h.out[i].seq < h.sent[g.sentIdx].seqSent) continue;
+            int d;
+            bool mt, bd;
+            long long s;
+            if (!parseScore(h.out[i].text, d, mt, s, bd)) continue;
+            if (h.out[i].text.find(" tbhits ") != std::string::npos) tbHitsSeen = true;
+            // every announced mate must be real (C04 wording), bounds included
+            if (mt && s > 0 && !(rv.kind == dtm::Value::WIN && rv.moves() <= s))
+                res.violate("C13", "false-mate-claim", "'" + h.out[i].text + "' claims a mate in " + std::to_string(s) + ctx);
+            if (bd) continue;
+            lastDepth = d; lastMate = mt; lastScore = s; lastLine = h.out[i].text;
+        }
+        if (!tbHitsSeen || lastDepth < 2) { res.counters["tb_search_without_table"]++; continue; } // table not built (aborted / stopped early)
+        res.counters["tb_roots_checked"]++;
+        const bool won = rv.kind == dtm::Value::WIN, lost = rv.kind == dtm::Value::LOSS;
+        const bool completable = (won || lost) && hmc + rv.plies <= 100;
+        if (rv.kind == dtm::Value::DRAW) {
+            res.counters["probe_tb_draw_root"]++;
+            if (lastMate) res.violate("C13", "mate-score-in-drawn-position", "'" + lastLine + "'" + ctx);
+        } else if (completable) {
+            res.counters[won ? "probe_tb_won_root" : "probe_tb_lost_root"]++;
+            long long want = won ? rv.moves() : -rv.moves();
+            // the search is settled when it was as deep as the reported mate needs (the engine's own criterion for ending the search)
+            long long claimedPlies = lastMate ? (lastScore > 0 ? 2 * lastScore - 1 : -2 * lastScore) : 1000000;
+            bool settled = lastMate && lastDepth >= claimedPlies;
+            if (settled) {
+                res.counters["tb_settled_results"]++;
+                if (lastScore != want)
+                    res.violate("C13", "inexact-distance", "final exact score '" + lastLine + "' but the exact result is mate " + std::to_string(want) + ctx);
+            } else {
+                res.counters["tb_unsettled_results"]++;
+                if (lastMate && ((lastScore > 0) != won || std::llabs(lastScore) < rv.moves()))
+                    res.violate("C13", "inexact-distance", "'" + lastLine + "' contradicts the exact result mate " + std::to_string(want) + ctx);
+                if (!lastMate && lastDepth >= 2 * rv.moves() + 2)
+                    res.violate("C13", "inexact-distance", "no mate score at depth " + std::to_string(lastDepth) + " ('" + lastLine + "') although the exact result is mate " + std::to_string(want) + ctx);
+                continue; // the move of an unsettled search is not judged
+            }
+        } else {
+            res.counters["probe_tb_50move_blocked"]++;
+            if (lastMate && men == 3)
+                res.violate("C13", "mate-beyond-50-move-limit", "'" + lastLine + "' although the mate cannot be completed before the 50-move limit (hmc " + std::to_string(hmc) + ")" + ctx);
+            if (lastMate && std::llabs(lastScore) < rv.moves())
+                res.violate("C13", "inexact-distance", "'" + lastLine + "' is shorter than the exact distance" + ctx);
+        }
+        // the move played
+        std::vector<std::string> bt = vf::splitWs(h.out[g.bestmoveLine].text);
+        Move bm;
+        if (bt.size() < 2 || !uci::parseUciMove(bt[1], bm) || !uci::containsMove(g.legal, bm)) continue;
+        Position p(g.root);
+        UndoInfo ui;
+        p.makeMove(bm, ui);
+        dtm::Value cv = tba::probe(p);
+        if (cv.kind == dtm::Value::NOT_COVERED || cv.kind == dtm::Value::ILLEGAL_POS) continue;
+        if (rv.kind == dtm::Value::DRAW && cv.kind == dtm::Value::WIN)
+            res.violate("C13", "draw-turned-into-loss", "bestmove " + bt[1] + " loses (opponent mates in " + std::to_string(cv.moves()) + ")" + ctx);
+        if (won && completable) {
+            if (!(cv.kind == dtm::Value::LOSS && cv.plies == rv.plies - 1))
+                res.violate("C13", "not-shortest-mate", "bestmove " + bt[1] + " leads to " +
+                            (cv.kind == dtm::Value::LOSS ? "mate in " + std::to_string(cv.moves()) + " more moves (" + std::to_string(cv.plies) + " plies, expected " + std::to_string(rv.plies - 1) + ")" : std::string("a non-won position")) + ctx);
+            else
+                res.counters["bestmoves_on_shortest_mate"]++;
+        }
+    }
+}
+
+void runC13(const Scenario& sc, vf::Result& res) {
+    sess::History h;
+    sess::runSession(sc, h, res);
+    uci::Model m;
+    uci::buildModel(h, m);
+    uci::checkContract(h, m, res);
+    uci::checkResults(h, m, res);
+    checkTB(h, m, res);
+    std::string d;
+    if (sess::ttIndexViolation(d)) res.violate("C08", "tt-index-out-of-range", d);
+    res.counters["gos"] = (long long)m.gos.size();
+}
+
+std::string placementFen(Rng& r, const std::string& key, int hmc) {
+    bool flip = r.chance(0.5);
+    std::vector<dtm::Man> men = tba::menOfKey(key, flip);
+    for (int t = 0; t < 100000; t++) {
+        int sq[4];
+        std::vector<int> sqv;
+        bool ok = true;
+        for (size_t i = 0; i < men.size(); i++) { sq[i] = (int)r.below(64); for (size_t j = 0; j < i; j++) if (sq[j] == sq[i]) ok = false; sqv.push_back(sq[i]); }
+        if (!ok) continue;
+        bool wtm = r.chance(0.5);
+        dtm::Value v = dtm::probe(men, sqv, wtm);
+        if (v.kind == dtm::Value::ILLEGAL_POS || v.kind == dtm::Value::NOT_COVERED) continue;
+        if (v.kind == dtm::Value::DRAW && r.chance(0.6)) continue; // prefer decisive positions
+        Position q;
+        place(q, men, sq, wtm, nullptr);
+        q.setHalfMoveClock(hmc);
+        q.setFullMoveCounter(1 + hmc / 2 + (int)r.below(30));
+        return TextIO::toFEN(q);
+    }
+    return "8/8/8/8/8/2K5/7Q/6k1 b - - 0 1";
+}
+
+void genC13(uint64_t seed, int tier, Scenario& sc) {
+    Rng r(seed, 1), rk(seed, 2);
+    sc.cls = "C13";
+    sc.seed = seed;
+    sess::genSimKnobs(rk, sc, rk.chance(0.3));
+    sc.set("node_cost_ns", gu::pickNodeCost(rk));
+    sc.set("clock_cost_ns", rk.logRange(100, 3000));
+    sc.setS("net", rk.chance(0.5) ? "material" : "random");
+    std::vector<std::string> k3 = dtm::allKeys(3), k4 = dtm::allKeys(4);
+    bool four = tier > 0 ? r.chance(0.5) : r.chance(0.04);
+    std::string key = four ? (tier > 0 ? k4[r.below(k4.size())] : (r.chance(0.5) ? "KQvKR" : "KRBvK")) : k3[r.below(2)]; // KQvK, KRvK (KBvK/KNvK are all draws)
+    if (!four && r.chance(0.15)) key = k3[2 + r.below(2)];
+    sc.setS("tb_key", key);
+    gu::pushSend(sc, "setoption name Hash value " + std::to_string(r.chance(0.4) ? 8 : r.range(8, 64)));
+    gu::pushSend(sc, "setoption name Threads value " + std::to_string(r.chance(0.5) ? 1 : r.range(2, 4)));
+    int nSearch = (int)r.range(1, 3);
+    for (int i = 0; i < nSearch; i++) {
+        int hmc = r.chance(0.5) ? 0 : (int)r.range(0, 99);
+        gu::pushSend(sc, "position fen " + placementFen(r, key, hmc));
+        gu::pushSend(sc, "go infinite");
+        if (r.chance(0.15)) sc.ops.push_back("wait_steps " + std::to_string(r.logRange(1, 200))); // may land inside the generation
+        else sc.ops.push_back("wait_ticks " + std::to_string(r.chance(0.2) ? r.logRange(10, 3000) : 40000)); // normally until the search has ended by itself (deep enough for the mate)
+        gu::pushSend(sc, "stop");
+        sc.ops.push_back("wait_bestmove");
+        if (r.chance(0.2)) { pg::GenPos gp; pg::randomGame(r, (int)r.range(0, 30), false, gp); gu::pushSend(sc, gp.positionCmd); gu::pushSend(sc, "go nodes " + std::to_string(r.logRange(100, 3000))); sc.ops.push_back("wait_bestmove"); }
+    }
+    gu::pushSend(sc, "quit");
+}
+
+vf::ClassRegistrar regC13({"C13", "C13", "session", genC13, runC13});
+
+} // namespace
